@@ -89,3 +89,72 @@ def init_contract(stale=False):
         params=params, setup=setup, ensures=ens, modifies=None,
         options={"inline": {"ebpfcat.ebpf:EBPFBase.__init__", "ebpfcat.arraymap:ArrayMap.collect"}},
         canaries={"no_device_attached": "dev0.ebpf is not self"})
+
+
+# ---------------------------------------------------------------- history
+# "a value written in one process is read unchanged in the other, and vice
+# versa": a lemma over the real DeviceVar.__set__ / __get__ on a device of a
+# loaded process sync group whose shared array the OTHER process writes between
+# two calls (ghost step other_process_writes).
+import struct as _struct
+
+from ebpfcat.ebpf import EBPFBase as _EBPFBase
+
+
+class LoadedGroup(_EBPFBase):
+    """stands for the loaded SimulatedEBPF / ProcessSyncGroup: `loaded`, and the
+    shared array under the map's name"""
+    loaded = True
+
+
+class Dev:
+    """a device of the group (real DeviceVar descriptors)"""
+    status = DeviceVar("i", write=True)
+
+
+Dev.status.__set_name__(Dev, "status")
+MAPNAME = Dev.status.map.name
+
+
+def other_process_writes(dev, w):
+    """the other process stores w in the variable (it shares the array)"""
+    g = dev.ebpf
+    arr = g.__dict__[MAPNAME]
+    arr[dev.__dict__["status"]:dev.__dict__["status"] + 4] = _struct.pack("i", w)
+
+
+def write_other_write_read(dev, v, w):
+    dev.status = v
+    other_process_writes(dev, w)
+    dev.status = v
+    return dev.status
+
+
+def write_other_read(dev, v, w):
+    dev.status = v
+    other_process_writes(dev, w)
+    return dev.status
+
+
+def history_lemmas():
+    def setup(ex, inputs):
+        d = inputs.vars["dev"]
+        g = inputs.vars["group"]
+        d.fields["ebpf"] = g
+        d.fields["sync_group"] = g
+        g.fields[MAPNAME] = inputs.vars["shared"]
+    params = dict(dev=T.Obj(Dev, status=T.Range(0, None)), group=T.Obj(LoadedGroup, loaded=T.Const(True)),
+                  shared=T.ByteArray(), v=T.Range(-2**31, 2**31 - 1), w=T.Range(-2**31, 2**31 - 1))
+    inl = {"inline": {"ebpfcat.ebpfcat:DeviceVar.__set__", "ebpfcat.ebpfcat:DeviceVar.__get__",
+                      "ebpfcat.arraymap:ArrayGlobalVarDesc.__set__", "ebpfcat.arraymap:ArrayGlobalVarDesc.__get__",
+                      "ebpfcat.arraymap:ArrayGlobalVarDesc.fmt_addr", "ebpfcat.arraymap:ArrayGlobalVarDesc.unpack",
+                      "contracts.c29_process:other_process_writes"}}
+    req = {"inside_the_shared_array": "dev.__dict__['status'] + 4 <= len(shared)"}
+    return [
+        Contract(write_other_write_read, name="DeviceVar: a write after the other process's write is stored again",
+                 params=params, setup=setup, requires=req, ensures={"reads_what_was_written_last": "result == v"},
+                 modifies=None, options=inl),
+        Contract(write_other_read, name="DeviceVar: a write of the other process is read",
+                 params=params, setup=setup, requires=req, ensures={"reads_the_other_process_s_value": "result == w"},
+                 modifies=None, options=inl, canaries={"reads_its_own_old_value": "result == v"}),
+    ]
